@@ -245,7 +245,13 @@ def _piece(prog, ob, which, checks_on, qdir, timeout, cross, dlo, dhi, rec):
     selfref = schedule_cell(ex, sets, NONE, NONE)
     init = {names['next']: dt_value(xd, xn), names['dom_restricted']: domr, names['dow_restricted']: dowr}
     stops = []
-    ret, rg = ex.call_body(f, [selfref], T, entry=header, frame_init=init, stop_at={header}, stops=stops)
+    try:
+        ret, rg = ex.call_body(f, [selfref], T, entry=header, frame_init=init, stop_at={header}, stops=stops)
+    except (AttributeError, TypeError) as e:
+        # a local other than `next` and the two restriction flags is read before it is written in the loop body: the loop carries
+        # additional state for which this cut has no invariant -> not decided (exit 2), never a pass
+        raise Inconclusive('loop body reads a local that is not part of the modelled loop state (next, dom_restricted, dow_restricted): '
+                           'additional loop-carried state, the loop-invariant cut has no invariant for it (%s)' % e)
     edges = {}
     for s_ in stops: edges.setdefault(s_['from'], []).append(s_)
     if sorted(edges) != back: raise Inconclusive('iteration: continue edges %s, expected back edges %s' % (sorted(edges), back))
